@@ -64,18 +64,27 @@ type answers struct {
 	Wait       time.Duration
 }
 
-func ask(t *tree.Tree) answers {
+// askShape asks the questions that do not walk the tree (safe on any structure).
+func askShape(t *tree.Tree) answers {
 	var a answers
 	a.Parent, a.HasParent = t.Parent()
 	a.Root = t.Root()
 	a.Children = slices.Clone(t.ReplicaChildren())
-	a.Sub = slices.Clone(t.SubTree())
-	a.Peers = slices.Clone(t.PeersOf())
 	a.Height = t.ReplicaHeight()
 	a.TreeHeight = t.TreeHeight()
+	return a
+}
+
+// askRest adds the answers that are computed by walking children lists. Only called once the children lists of all
+// replicas have been shown to form a tree (on a cyclic structure these walks need not terminate).
+func askRest(t *tree.Tree, a answers) answers {
+	a.Sub = slices.Clone(t.SubTree())
+	a.Peers = slices.Clone(t.PeersOf())
 	a.Wait = t.WaitTime()
 	return a
 }
+
+func ask(t *tree.Tree) answers { return askRest(t, askShape(t)) }
 
 func (a answers) equal(b answers) bool {
 	return a.Parent == b.Parent && a.HasParent == b.HasParent && a.Root == b.Root &&
@@ -130,6 +139,117 @@ func counts(ids []hotstuff.ID, n int) (cnt []int, ok bool) {
 	return cnt, true
 }
 
+// shapeOf puts the replicas' answers about root, parent and children side by side and decides whether they describe one
+// rooted tree containing every replica once. It returns the answers, the agreed root and every replica's depth.
+func shapeOf(c treeCase, desc string, trees []*tree.Tree) (ans []answers, root hotstuff.ID, depth []int, res *common.Result) {
+	n := c.N
+	fail := func(fp, format string, args ...any) ([]answers, hotstuff.ID, []int, *common.Result) {
+		r := common.Fail(fp, format, args...)
+		return nil, 0, nil, &r
+	}
+	ans = make([]answers, n+1)
+	for x := 1; x <= n; x++ {
+		ans[x] = askShape(trees[x])
+	}
+
+	// ---- exactly one root, agreed by all
+	root = ans[1].Root
+	for x := 1; x <= n; x++ {
+		if ans[x].Root != root {
+			return fail("root-disagree", "%s: replica 1 says the root is %d, replica %d says %d", desc, root, x, ans[x].Root)
+		}
+	}
+	if !valid(root, n) {
+		return fail("root-invalid", "%s: Root() = %d is not a replica", desc, root)
+	}
+	if root != hotstuff.ID(c.Pos[0]) {
+		return fail("root-layout", "%s: Root() = %d, documented root is TreePositions[0] = %d", desc, root, c.Pos[0])
+	}
+	orphans := 0
+	for x := 1; x <= n; x++ {
+		if !ans[x].HasParent {
+			orphans++
+			if hotstuff.ID(x) != root {
+				return fail("root-count", "%s: replica %d reports no parent but the agreed root is %d", desc, x, root)
+			}
+			if ans[x].Parent != root {
+				return fail("root-parent-value", "%s: root's Parent() = (%d,false), documented (root id,false)", desc, ans[x].Parent)
+			}
+		}
+	}
+	if orphans != 1 {
+		return fail("root-count", "%s: %d replicas report no parent, want exactly 1 (root %d has parent %d)", desc, orphans, root, ans[root].Parent)
+	}
+	for y := 1; y <= n; y++ {
+		for x := 1; x <= n; x++ {
+			if got := trees[y].IsRoot(hotstuff.ID(x)); got != (hotstuff.ID(x) == root) {
+				return fail("isroot", "%s: replica %d: IsRoot(%d) = %v, root is %d", desc, y, x, got, root)
+			}
+		}
+	}
+
+	// ---- children lists: well formed, bounded by bf, and every replica sees the same list for every node
+	listed := make([]int, n+1)           // in how many children lists (with multiplicity) a replica appears
+	listedBy := make([]hotstuff.ID, n+1) // one parent that lists it
+	for p := 1; p <= n; p++ {
+		ch := ans[p].Children
+		if len(ch) > c.BF {
+			return fail("children-count", "%s: replica %d has %d children %v > bf", desc, p, len(ch), ch)
+		}
+		if _, ok := counts(ch, n); !ok {
+			return fail("children-invalid", "%s: replica %d lists a non-replica among its children %v", desc, p, ch)
+		}
+		for _, ch1 := range ch {
+			if int(ch1) == p {
+				return fail("children-invalid", "%s: replica %d lists itself as a child %v", desc, p, ch)
+			}
+			listed[ch1]++
+			listedBy[ch1] = hotstuff.ID(p)
+		}
+		for y := 1; y <= n; y++ {
+			if got := trees[y].ChildrenOf(hotstuff.ID(p)); !slices.Equal(got, ch) {
+				return fail("children-disagree", "%s: replica %d says its children are %v, replica %d says ChildrenOf(%d) = %v", desc, p, ch, y, p, got)
+			}
+		}
+	}
+	// ---- parent <=> child, listed exactly once
+	for x := 1; x <= n; x++ {
+		if hotstuff.ID(x) == root {
+			if listed[x] != 0 {
+				return fail("parent-child", "%s: the root %d is listed as a child of %d", desc, x, listedBy[x])
+			}
+			continue
+		}
+		p := ans[x].Parent
+		if !valid(p, n) || int(p) == x {
+			return fail("parent-invalid", "%s: replica %d has parent %d", desc, x, p)
+		}
+		if !slices.Contains(ans[p].Children, hotstuff.ID(x)) {
+			return fail("parent-child", "%s: replica %d says its parent is %d, but %d's children are %v (a proposal would never reach %d / its vote goes to a replica not waiting for it)",
+				desc, x, p, p, ans[p].Children, x)
+		}
+		if listed[x] != 1 {
+			return fail("parent-child", "%s: replica %d appears %d times in children lists (parent %d, also listed by %d)", desc, x, listed[x], p, listedBy[x])
+		}
+	}
+
+	// ---- following parents reaches the root without a cycle; depth
+	depth = make([]int, n+1)
+	for x := 1; x <= n; x++ {
+		cur, steps := hotstuff.ID(x), 0
+		for cur != root {
+			cur = ans[cur].Parent
+			steps++
+			if steps > n {
+				return fail("cycle", "%s: following parents from %d does not reach the root %d", desc, x, root)
+			}
+		}
+		depth[x] = steps
+	}
+
+	return ans, root, depth, nil
+}
+
 // treeProp is the global-reconstruction oracle.
 func treeProp(c treeCase) common.Result {
 	n := c.N
@@ -167,7 +287,17 @@ func treeProp(c treeCase) common.Result {
 		}
 	}
 
-	// ---- one Tree per replica, each from its own copy of the positions
+	// ---- guard: the shape questions on plain NewSimple trees first. SubTree and the aggregation wait time (computed
+	// inside NewDelayed) walk the children lists; they are only exercised once those lists are known to form a tree.
+	probe := make([]*tree.Tree, n+1)
+	for x := 1; x <= n; x++ {
+		probe[x] = tree.NewSimple(hotstuff.ID(x), c.BF, toIDs(c.Pos))
+	}
+	if _, _, _, res := shapeOf(c, desc, probe); res != nil {
+		return *res
+	}
+
+	// ---- one Tree per replica, each from its own copy of the positions, built the way the case says
 	trees := make([]*tree.Tree, n+1)
 	inputs := make([][]hotstuff.ID, n+1)
 	for x := 1; x <= n; x++ {
@@ -177,104 +307,12 @@ func treeProp(c treeCase) common.Result {
 			return common.Fail("ctor-nil", "%s: constructor returned nil for replica %d", desc, x)
 		}
 	}
-	ans := make([]answers, n+1)
+	ans, root, depth, res := shapeOf(c, desc, trees)
+	if res != nil {
+		return *res
+	}
 	for x := 1; x <= n; x++ {
-		ans[x] = ask(trees[x])
-	}
-
-	// ---- exactly one root, agreed by all
-	root := ans[1].Root
-	for x := 1; x <= n; x++ {
-		if ans[x].Root != root {
-			return common.Fail("root-disagree", "%s: replica 1 says the root is %d, replica %d says %d", desc, root, x, ans[x].Root)
-		}
-	}
-	if !valid(root, n) {
-		return common.Fail("root-invalid", "%s: Root() = %d is not a replica", desc, root)
-	}
-	if root != hotstuff.ID(c.Pos[0]) {
-		return common.Fail("root-layout", "%s: Root() = %d, documented root is TreePositions[0] = %d", desc, root, c.Pos[0])
-	}
-	orphans := 0
-	for x := 1; x <= n; x++ {
-		if !ans[x].HasParent {
-			orphans++
-			if hotstuff.ID(x) != root {
-				return common.Fail("root-count", "%s: replica %d reports no parent but the agreed root is %d", desc, x, root)
-			}
-			if ans[x].Parent != root {
-				return common.Fail("root-parent-value", "%s: root's Parent() = (%d,false), documented (root id,false)", desc, ans[x].Parent)
-			}
-		}
-	}
-	if orphans != 1 {
-		return common.Fail("root-count", "%s: %d replicas report no parent, want exactly 1 (root %d has parent %d)", desc, orphans, root, ans[root].Parent)
-	}
-	for y := 1; y <= n; y++ {
-		for x := 1; x <= n; x++ {
-			if got := trees[y].IsRoot(hotstuff.ID(x)); got != (hotstuff.ID(x) == root) {
-				return common.Fail("isroot", "%s: replica %d: IsRoot(%d) = %v, root is %d", desc, y, x, got, root)
-			}
-		}
-	}
-
-	// ---- children lists: well formed, bounded by bf, and every replica sees the same list for every node
-	listed := make([]int, n+1)           // in how many children lists (with multiplicity) a replica appears
-	listedBy := make([]hotstuff.ID, n+1) // one parent that lists it
-	for p := 1; p <= n; p++ {
-		ch := ans[p].Children
-		if len(ch) > c.BF {
-			return common.Fail("children-count", "%s: replica %d has %d children %v > bf", desc, p, len(ch), ch)
-		}
-		if _, ok := counts(ch, n); !ok {
-			return common.Fail("children-invalid", "%s: replica %d lists a non-replica among its children %v", desc, p, ch)
-		}
-		for _, ch1 := range ch {
-			if int(ch1) == p {
-				return common.Fail("children-invalid", "%s: replica %d lists itself as a child %v", desc, p, ch)
-			}
-			listed[ch1]++
-			listedBy[ch1] = hotstuff.ID(p)
-		}
-		for y := 1; y <= n; y++ {
-			if got := trees[y].ChildrenOf(hotstuff.ID(p)); !slices.Equal(got, ch) {
-				return common.Fail("children-disagree", "%s: replica %d says its children are %v, replica %d says ChildrenOf(%d) = %v", desc, p, ch, y, p, got)
-			}
-		}
-	}
-	// ---- parent <=> child, listed exactly once
-	for x := 1; x <= n; x++ {
-		if hotstuff.ID(x) == root {
-			if listed[x] != 0 {
-				return common.Fail("parent-child", "%s: the root %d is listed as a child of %d", desc, x, listedBy[x])
-			}
-			continue
-		}
-		p := ans[x].Parent
-		if !valid(p, n) || int(p) == x {
-			return common.Fail("parent-invalid", "%s: replica %d has parent %d", desc, x, p)
-		}
-		if !slices.Contains(ans[p].Children, hotstuff.ID(x)) {
-			return common.Fail("parent-child", "%s: replica %d says its parent is %d, but %d's children are %v (a proposal would never reach %d / its vote goes to a replica not waiting for it)",
-				desc, x, p, p, ans[p].Children, x)
-		}
-		if listed[x] != 1 {
-			return common.Fail("parent-child", "%s: replica %d appears %d times in children lists (parent %d, also listed by %d)", desc, x, listed[x], p, listedBy[x])
-		}
-	}
-
-	// ---- following parents reaches the root without a cycle; depth
-	depth := make([]int, n+1)
-	for x := 1; x <= n; x++ {
-		cur, steps := hotstuff.ID(x), 0
-		for cur != root {
-			cur = ans[cur].Parent
-			steps++
-			if steps > n {
-				return common.Fail("cycle", "%s: following parents from %d does not reach the root %d", desc, x, root)
-			}
-		}
-		depth[x] = steps
+		ans[x] = askRest(trees[x], ans[x])
 	}
 	maxDepth := 0
 	for x := 1; x <= n; x++ {
@@ -580,30 +618,44 @@ func nextPerm(p []uint32) bool {
 }
 
 // TestC17Exhaustive: every permutation of the replicas over the tree positions for n <= 6 (quick) / 7 (thorough),
-// every branch factor 2..6, every constructor.
+// every branch factor 2..6, every constructor; plus every permutation of the smallest four-level tree (n = 8, bf = 2:
+// the first shape in which a non-root replica has grandchildren) with the aggregation constructor (quick) / every
+// constructor (thorough).
 func TestC17Exhaustive(t *testing.T) {
 	maxN := 6
+	ctors8 := []int{ctorDelayedAgg}
 	if common.Tier() == "thorough" {
 		maxN = 7
+		ctors8 = []int{ctorSimple, ctorDelayedNone, ctorDelayedTH, ctorDelayedAgg}
 	}
-	common.Get(id).Note("TestC17Exhaustive", map[string]any{"max_n": maxN, "bf": "2..6", "constructors": numCtors})
+	common.Get(id).Note("TestC17Exhaustive", map[string]any{"max_n": maxN, "bf": "2..6", "constructors": numCtors, "n8_bf2_constructors": ctors8})
+	allPerms := func(n, bf, ctor int, yield func(treeCase) bool) bool {
+		p := make([]uint32, n)
+		for i := range p {
+			p[i] = uint32(i + 1)
+		}
+		for {
+			if !yield(treeCase{N: n, BF: bf, Pos: slices.Clone(p), Ctor: ctor, DeltaMs: 10 * ctor, Locs: defaultLocs(n, bf), Views: []uint64{1, 7}}) {
+				return false
+			}
+			if !nextPerm(p) {
+				return true
+			}
+		}
+	}
 	common.Exhaustive(t, id, "TestC17Exhaustive", func(yield func(treeCase) bool) {
 		for n := 1; n <= maxN; n++ {
 			for bf := 2; bf <= 6; bf++ {
 				for ctor := 0; ctor < numCtors; ctor++ {
-					p := make([]uint32, n)
-					for i := range p {
-						p[i] = uint32(i + 1)
-					}
-					for {
-						if !yield(treeCase{N: n, BF: bf, Pos: slices.Clone(p), Ctor: ctor, DeltaMs: 10 * ctor, Locs: defaultLocs(n, bf), Views: []uint64{1, 7}}) {
-							return
-						}
-						if !nextPerm(p) {
-							break
-						}
+					if !allPerms(n, bf, ctor, yield) {
+						return
 					}
 				}
+			}
+		}
+		for _, ctor := range ctors8 {
+			if !allPerms(8, 2, ctor, yield) {
+				return
 			}
 		}
 	}, treeProp)
